@@ -286,3 +286,957 @@ Lemma meta_rows_b : forallb (tag_row_ok TkMetaText named_text_meta) sysfuncs = t
 Proof. vm_compute. reflexivity. Qed.
 Lemma meta_types r : In r sysfuncs -> sf_type r = TkMetaText -> assoc (sf_name r) named_text_meta = Some (sf_tag1 r).
 Proof. apply tag_row_from_check, meta_rows_b. Qed.
+
+(* ------------------------------------------------------------------------------------------ *)
+(* from events to bytes and back                                                               *)
+(* ------------------------------------------------------------------------------------------ *)
+Lemma track_of_wire evs items :
+  forallb event_ok evs = true -> wire 0 evs = items -> deltas_ok items = true ->
+  generate_track evs = Ok (enc_track items ++ EOT) /\
+  decode_track (enc_track items ++ EOT) = Some (items ++ [EOTmsg]).
+Proof.
+  intros H W D. subst items.
+  assert (G : generate_track evs = Ok (enc_track (wire 0 evs) ++ EOT)).
+  { unfold generate_track. rewrite (write_events_wire evs 0 H). reflexivity. }
+  split; [exact G|].
+  destruct (generate_track_decodes evs H D) as [bs [G' Dc]]. rewrite G in G'. inversion G'. subst. exact Dc.
+Qed.
+
+Lemma clamp_id lo hi v : lo <= v <= hi -> clamp lo hi v = v.
+Proof. unfold clamp. lia. Qed.
+Lemma deltas_one t (m : msg) (ms : list msg) : 0 <= t < 2 ^ 28 ->
+  deltas_ok ((t, m) :: map (fun x => (0, x)) ms) = true.
+Proof.
+  intros H. unfold deltas_ok. cbn [forallb fst]. apply andb_true_intro. split; [lia|].
+  induction ms; cbn [map forallb fst]; auto.
+Qed.
+
+Ltac ev_unfold := unfold cmd_cc, cmd_select_data, ev_cc, ev_voice, ev_pitch_bend, ev_meta, ev_sysex_raw.
+Ltac wire_cbn := cbn [wire wire_msgs e_type e_time e_ch e_v1 e_v2 e_v3 e_data app map].
+
+Ltac norm_bytes T :=
+  unfold enc_track, enc_item in T; cbn [flat_map fst snd enc_msg app] in T;
+  rewrite ?app_nil_r in T; rewrite <- ?app_assoc in T; change (push_delta 0) with [0] in T; cbn [app] in T.
+
+(* control change *)
+Lemma cc_wire time ch no v : 0 <= time -> 0 <= ch <= 15 -> 0 <= no <= 127 -> 0 <= v <= 127 ->
+  wire 0 (cmd_cc time ch no v) = [(time, MCC ch no v)].
+Proof.
+  intros. ev_unfold. wire_cbn. rewrite !clamp_id by lia. repeat f_equal; lia.
+Qed.
+Lemma cc_bytes time ch no v : 0 <= time < 2 ^ 28 -> 0 <= ch <= 15 -> 0 <= no <= 127 -> 0 <= v <= 127 ->
+  generate_track (cmd_cc time ch no v) = Ok (push_delta time ++ [176 + ch; no; v] ++ EOT) /\
+  decode_track (push_delta time ++ [176 + ch; no; v] ++ EOT) = Some [(time, MCC ch no v); EOTmsg].
+Proof.
+  intros Ht Hc Hn Hv.
+  pose proof (track_of_wire (cmd_cc time ch no v) [(time, MCC ch no v)] eq_refl
+                (cc_wire time ch no v ltac:(lia) Hc Hn Hv) (deltas_one time _ [] Ht)) as T.
+  norm_bytes T. exact T.
+Qed.
+
+Lemma value_range_clamp lo v hi : lo <= hi -> value_range lo v hi = clamp lo hi v.
+Proof. unfold value_range, clamp. intros. destruct (v <? lo) eqn:A; [lia|]. destruct (v >? hi) eqn:B; lia. Qed.
+
+(* program change *)
+Lemma voice1_eq time ch n : cmd_voice time ch [n] = [ev_voice time ch (clamp 1 128 n - 1)].
+Proof. unfold cmd_voice. cbn [length Nat.eqb]. rewrite value_range_clamp by lia. reflexivity. Qed.
+Lemma voice3_eq time ch n msb lsb :
+  cmd_voice time ch [n; msb; lsb] = [ev_cc time ch 0 msb; ev_cc time ch 32 lsb; ev_voice time ch (clamp 1 128 n - 1)].
+Proof. unfold cmd_voice. cbn [length Nat.eqb nth]. rewrite value_range_clamp by lia. reflexivity. Qed.
+
+Lemma program_bytes time ch n : 0 <= time < 2 ^ 28 -> 0 <= ch <= 15 -> 1 <= n <= 128 ->
+  generate_track (cmd_voice time ch [n]) = Ok (push_delta time ++ [192 + ch; n - 1] ++ EOT) /\
+  decode_track (push_delta time ++ [192 + ch; n - 1] ++ EOT) = Some [(time, MProgram ch (n - 1)); EOTmsg].
+Proof.
+  intros Ht Hc Hn. rewrite voice1_eq.
+  assert (W : wire 0 [ev_voice time ch (clamp 1 128 n - 1)] = [(time, MProgram ch (n - 1))]).
+  { ev_unfold. wire_cbn. rewrite (clamp_id 1 128 n) by lia. rewrite !clamp_id by lia. repeat f_equal; lia. }
+  pose proof (fun H => track_of_wire _ _ H W (deltas_one time _ [] Ht)) as T. specialize (T eq_refl). norm_bytes T. exact T.
+Qed.
+Lemma program_bank_bytes time ch n msb lsb : 0 <= time < 2 ^ 28 -> 0 <= ch <= 15 -> 1 <= n <= 128 ->
+  0 <= msb <= 127 -> 0 <= lsb <= 127 ->
+  generate_track (cmd_voice time ch [n; msb; lsb]) =
+    Ok (push_delta time ++ [176 + ch; 0; msb; 0; 176 + ch; 32; lsb; 0; 192 + ch; n - 1] ++ EOT) /\
+  decode_track (push_delta time ++ [176 + ch; 0; msb; 0; 176 + ch; 32; lsb; 0; 192 + ch; n - 1] ++ EOT) =
+    Some [(time, MCC ch CC_BANK_MSB msb); (0, MCC ch CC_BANK_LSB lsb); (0, MProgram ch (n - 1)); EOTmsg].
+Proof.
+  intros Ht Hc Hn Hm Hl. rewrite voice3_eq.
+  assert (W : wire 0 [ev_cc time ch 0 msb; ev_cc time ch 32 lsb; ev_voice time ch (clamp 1 128 n - 1)]
+              = [(time, MCC ch 0 msb); (0, MCC ch 32 lsb); (0, MProgram ch (n - 1))]).
+  { ev_unfold. wire_cbn. rewrite (clamp_id 1 128 n) by lia. rewrite !clamp_id by lia. repeat f_equal; lia. }
+  pose proof (fun H => track_of_wire _ _ H W (deltas_one time _ [_; _] Ht)) as T. specialize (T eq_refl). norm_bytes T. exact T.
+Qed.
+
+(* tempo *)
+Lemma tempo_bytes_of mpq : 0 <= mpq < 2 ^ 24 ->
+  [as_u8 (Z.land (Z.shiftr mpq 16) 255); as_u8 (Z.land (Z.shiftr mpq 8) 255); as_u8 (Z.land (Z.shiftr mpq 0) 255)]
+  = [mpq / 65536; (mpq / 256) mod 256; mpq mod 256].
+Proof.
+  intros H. rewrite !land_255, !shiftr_k by lia. change (2 ^ 16) with 65536. change (2 ^ 8) with 256. change (2 ^ 0) with 1.
+  rewrite Z.div_1_r. unfold as_u8. f_equal; [lia | f_equal; [lia | f_equal; lia]].
+Qed.
+Lemma tempo_eq time bpm : 10 <= bpm <= 300 ->
+  cmd_tempo time bpm = [ev_meta time 255 META_TEMPO 3 (tempo_payload bpm)].
+Proof.
+  intros H. unfold cmd_tempo, tempo_change, tempo_mpq. rewrite value_range_clamp, clamp_id by lia.
+  replace (bpm >? 0) with true by lia. rewrite Z.quot_div_nonneg by lia.
+  rewrite tempo_bytes_of. 2:{ split; [apply Z.div_pos; lia|]. apply Z.div_lt_upper_bound; lia. }
+  reflexivity.
+Qed.
+Lemma tempo_clamps time bpm : cmd_tempo time bpm = cmd_tempo time (clamp 10 300 bpm).
+Proof.
+  unfold cmd_tempo. rewrite !value_range_clamp by lia. f_equal. unfold clamp. lia.
+Qed.
+Lemma tempo_payload_value bpm : 10 <= bpm <= 300 ->
+  exists a b c, tempo_payload bpm = [a; b; c] /\ 0 <= a < 256 /\ 0 <= b < 256 /\ 0 <= c < 256 /\
+                (a * 256 + b) * 256 + c = 60000000 / bpm.
+Proof.
+  intros H. unfold tempo_payload, MICROSECONDS_PER_MINUTE. set (us := 60000000 / bpm).
+  assert (0 <= us < 2 ^ 24). { unfold us. split; [apply Z.div_pos; lia|]. apply Z.div_lt_upper_bound; lia. }
+  exists (us / 65536), ((us / 256) mod 256), (us mod 256). repeat split; lia.
+Qed.
+Lemma tempo_bytes time bpm : 0 <= time < 2 ^ 28 -> 10 <= bpm <= 300 ->
+  generate_track (cmd_tempo time bpm) = Ok (push_delta time ++ [255; 81; 3] ++ tempo_payload bpm ++ EOT) /\
+  decode_track (push_delta time ++ [255; 81; 3] ++ tempo_payload bpm ++ EOT) = Some [(time, MMeta 81 (tempo_payload bpm)); EOTmsg].
+Proof.
+  intros Ht Hb. rewrite tempo_eq by assumption.
+  destruct (tempo_payload_value bpm Hb) as [a [b [c [E [Ha [Hb' [Hc Hv]]]]]]]. rewrite E.
+  assert (Hok : forallb event_ok [ev_meta time 255 META_TEMPO 3 [a; b; c]] = true).
+  { unfold event_ok, ev_meta, bytes_ok, byte_ok, data7, zlen. cbn [forallb e_type e_data e_v1 e_v2 e_v3 length].
+    repeat (apply andb_true_intro; split); try reflexivity; lia. }
+  assert (W : wire 0 [ev_meta time 255 META_TEMPO 3 [a; b; c]] = [(time, MMeta 81 [a; b; c])]).
+  { ev_unfold. wire_cbn. repeat f_equal; lia. }
+  pose proof (track_of_wire _ _ Hok W (deltas_one time _ [] Ht)) as T. norm_bytes T.
+  change (push_delta (zlen [a; b; c])) with [3] in T. cbn [app] in T. exact T.
+Qed.
+
+Ltac finish_track W Ht ms :=
+  let T := fresh "T" in
+  pose proof (fun H => track_of_wire _ _ H W (deltas_one _ _ ms Ht)) as T; specialize (T eq_refl); norm_bytes T; exact T.
+
+(* time signature *)
+Lemma log2_cases dd l : log2_denominator dd = Some l ->
+  (dd = 2 /\ l = 1) \/ (dd = 4 /\ l = 2) \/ (dd = 8 /\ l = 3) \/ (dd = 16 /\ l = 4).
+Proof.
+  unfold log2_denominator. destruct (dd =? 2) eqn:A; [intros H; inversion H; lia|].
+  destruct (dd =? 4) eqn:B; [intros H; inversion H; lia|].
+  destruct (dd =? 8) eqn:C; [intros H; inversion H; lia|].
+  destruct (dd =? 16) eqn:D; [intros H; inversion H; lia|]. discriminate.
+Qed.
+Lemma timesig_eq time nn dd l : 2 <= nn <= 64 -> log2_denominator dd = Some l ->
+  cmd_timesig time [nn; dd] = [ev_meta time 255 META_TIME_SIGNATURE 4 [nn; l; 24; 8]].
+Proof.
+  intros Hn Hl. apply log2_cases in Hl. unfold cmd_timesig. rewrite value_range_clamp, clamp_id by lia.
+  rewrite (as_u8_small nn) by lia.
+  destruct Hl as [[-> ->]|[[-> ->]|[[-> ->]|[-> ->]]]]; reflexivity.
+Qed.
+Lemma timesig_clamps time a0 a1 : cmd_timesig time [a0; a1] = cmd_timesig time [clamp 2 64 a0; timesig_deno a1].
+Proof.
+  unfold cmd_timesig. rewrite !value_range_clamp by lia. rewrite (clamp_id 2 64 (clamp 2 64 a0)) by (unfold clamp; lia).
+  do 3 f_equal. f_equal. f_equal. f_equal.
+  unfold timesig_deno. rewrite !value_range_clamp by lia.
+  set (d := clamp 2 64 a1).
+  destruct (d =? 2) eqn:A; [reflexivity|]. destruct (d =? 4) eqn:B; [reflexivity|].
+  destruct (d =? 8) eqn:C; [reflexivity|]. destruct (d =? 16) eqn:D; reflexivity.
+Qed.
+Lemma timesig_bytes time nn dd l : 0 <= time < 2 ^ 28 -> 2 <= nn <= 64 -> log2_denominator dd = Some l ->
+  generate_track (cmd_timesig time [nn; dd]) = Ok (push_delta time ++ [255; 88; 4; nn; l; 24; 8] ++ EOT) /\
+  decode_track (push_delta time ++ [255; 88; 4; nn; l; 24; 8] ++ EOT) = Some [(time, MMeta 88 [nn; l; 24; 8]); EOTmsg].
+Proof.
+  intros Ht Hn Hl. rewrite (timesig_eq time nn dd l Hn Hl). apply log2_cases in Hl.
+  assert (0 <= l < 128) by lia.
+  assert (Hok : forallb event_ok [ev_meta time 255 META_TIME_SIGNATURE 4 [nn; l; 24; 8]] = true).
+  { unfold event_ok, ev_meta, bytes_ok, byte_ok, data7, zlen. cbn [forallb e_type e_data e_v1 e_v2 e_v3 length].
+    repeat (apply andb_true_intro; split); try reflexivity; lia. }
+  assert (W : wire 0 [ev_meta time 255 META_TIME_SIGNATURE 4 [nn; l; 24; 8]] = [(time, MMeta 88 [nn; l; 24; 8])]).
+  { ev_unfold. wire_cbn. repeat f_equal; lia. }
+  pose proof (track_of_wire _ _ Hok W (deltas_one time _ [] Ht)) as T. norm_bytes T.
+  change (push_delta (zlen [nn; l; 24; 8])) with [4] in T. cbn [app] in T. exact T.
+Qed.
+
+(* pitch bend *)
+Lemma bend_bytes_v time ch v14 : 0 <= time < 2 ^ 28 -> 0 <= ch <= 15 -> 0 <= v14 <= 16383 ->
+  generate_track [ev_pitch_bend time ch v14] = Ok (push_delta time ++ [224 + ch; bend_lsb v14; bend_msb v14] ++ EOT) /\
+  decode_track (push_delta time ++ [224 + ch; bend_lsb v14; bend_msb v14] ++ EOT)
+    = Some [(time, MBend ch (bend_lsb v14) (bend_msb v14)); EOTmsg].
+Proof.
+  intros Ht Hc Hv.
+  assert (W : wire 0 [ev_pitch_bend time ch v14] = [(time, MBend ch (bend_lsb v14) (bend_msb v14))]).
+  { ev_unfold. wire_cbn. rewrite !clamp_id by lia. unfold bend_lsb, bend_msb. repeat f_equal; lia. }
+  finish_track W Ht (@nil msg).
+Qed.
+Lemma bend_big_bytes time ch v : 0 <= time < 2 ^ 28 -> 0 <= ch <= 15 -> -8192 <= v <= 8191 ->
+  let v14 := v + BEND_CENTRE in
+  generate_track (cmd_pitch_bend time ch true v) = Ok (push_delta time ++ [224 + ch; bend_lsb v14; bend_msb v14] ++ EOT) /\
+  decode_track (push_delta time ++ [224 + ch; bend_lsb v14; bend_msb v14] ++ EOT)
+    = Some [(time, MBend ch (bend_lsb v14) (bend_msb v14)); EOTmsg] /\
+  0 <= bend_lsb v14 < 128 /\ 0 <= bend_msb v14 < 128 /\ bend_lsb v14 + 128 * bend_msb v14 = v + 8192.
+Proof.
+  intros Ht Hc Hv v14. unfold cmd_pitch_bend. fold BEND_CENTRE. fold v14.
+  assert (0 <= v14 <= 16383) by (unfold v14, BEND_CENTRE; lia).
+  destruct (bend_bytes_v time ch v14 Ht Hc H) as [A B].
+  repeat split; try assumption; unfold bend_lsb, bend_msb, v14, BEND_CENTRE in *; lia.
+Qed.
+Lemma bend_small_bytes time ch v : 0 <= time < 2 ^ 28 -> 0 <= ch <= 15 -> 0 <= v <= 127 ->
+  generate_track (cmd_pitch_bend time ch false v) = Ok (push_delta time ++ [224 + ch; 0; v] ++ EOT) /\
+  decode_track (push_delta time ++ [224 + ch; 0; v] ++ EOT) = Some [(time, MBend ch 0 v); EOTmsg].
+Proof.
+  intros Ht Hc Hv. unfold cmd_pitch_bend.
+  assert (0 <= v * 128 <= 16383) by lia.
+  pose proof (bend_bytes_v time ch (v * 128) Ht Hc H) as T.
+  replace (bend_lsb (v * 128)) with 0 in T by (unfold bend_lsb; lia).
+  replace (bend_msb (v * 128)) with v in T by (unfold bend_msb; lia). exact T.
+Qed.
+
+(* RPN / NRPN: select, then data entry *)
+Lemma select_data_bytes time ch cc1 cc2 cc3 m l v : 0 <= time < 2 ^ 28 -> 0 <= ch <= 15 ->
+  0 <= cc1 <= 127 -> 0 <= cc2 <= 127 -> 0 <= cc3 <= 127 -> 0 <= m <= 127 -> 0 <= l <= 127 -> 0 <= v <= 127 ->
+  generate_track (cmd_select_data time ch cc1 cc2 cc3 m l v) =
+    Ok (push_delta time ++ [176 + ch; cc1; m; 0; 176 + ch; cc2; l; 0; 176 + ch; cc3; v] ++ EOT) /\
+  decode_track (push_delta time ++ [176 + ch; cc1; m; 0; 176 + ch; cc2; l; 0; 176 + ch; cc3; v] ++ EOT) =
+    Some [(time, MCC ch cc1 m); (0, MCC ch cc2 l); (0, MCC ch cc3 v); EOTmsg].
+Proof.
+  intros Ht Hc H1 H2 H3 Hm Hl Hv.
+  assert (W : wire 0 (cmd_select_data time ch cc1 cc2 cc3 m l v) = [(time, MCC ch cc1 m); (0, MCC ch cc2 l); (0, MCC ch cc3 v)]).
+  { ev_unfold. wire_cbn. rewrite !clamp_id by lia. repeat f_equal; lia. }
+  finish_track W Ht [MCC ch cc2 l; MCC ch cc3 v].
+Qed.
+
+(* the rows of the table run the modelled arm with the row's tags *)
+Lemma run_row_of r st args txt : In r sysfuncs -> run_command (sf_name r) st args txt = run_row r st args txt.
+Proof. intros H. unfold run_command. rewrite (find_row r H). reflexivity. Qed.
+Lemma named_controller_runs r st v : In r sysfuncs -> sf_type r = TkControlChangeCommand ->
+  run_command (sf_name r) st [v] [] = Ok (cmd_cc (c_time st) (c_ch st) (sf_tag1 r) v).
+Proof. intros H T. rewrite run_row_of by assumption. unfold run_row. rewrite T. reflexivity. Qed.
+Lemma named_rpn_runs r st v : In r sysfuncs -> sf_type r = TkRPNCommand ->
+  run_command (sf_name r) st [v] [] = Ok (cmd_rpn (c_time st) (c_ch st) (sf_tag1 r) (sf_tag2 r) v).
+Proof. intros H T. rewrite run_row_of by assumption. unfold run_row. rewrite T. reflexivity. Qed.
+Lemma named_nrpn_runs r st v : In r sysfuncs -> sf_type r = TkNRPNCommand ->
+  run_command (sf_name r) st [v] [] = Ok (cmd_nrpn (c_time st) (c_ch st) (sf_tag1 r) (sf_tag2 r) v).
+Proof. intros H T. rewrite run_row_of by assumption. unfold run_row. rewrite T. reflexivity. Qed.
+Lemma text_runs r st txt : In r sysfuncs -> sf_type r = TkMetaText ->
+  run_command (sf_name r) st [] txt = Ok (cmd_meta_text (c_time st) (sf_tag1 r) txt).
+Proof. intros H T. rewrite run_row_of by assumption. unfold run_row. rewrite T. reflexivity. Qed.
+
+(* ---- system exclusive ---- *)
+Lemma sysex_track time payload : 0 <= time < 2 ^ 28 -> forallb byte_ok payload = true -> zlen payload + 1 < 2 ^ 28 ->
+  generate_track [ev_sysex_raw time (240 :: payload)] =
+    Ok (push_delta time ++ [240] ++ push_delta (zlen payload) ++ payload ++ EOT) /\
+  decode_track (push_delta time ++ [240] ++ push_delta (zlen payload) ++ payload ++ EOT) = Some [(time, MSysEx payload); EOTmsg].
+Proof.
+  intros Ht Hb Hl.
+  assert (Hok : forallb event_ok [ev_sysex_raw time (240 :: payload)] = true).
+  { unfold event_ok, ev_sysex_raw, bytes_ok. cbn [forallb e_type e_data]. rewrite Hb.
+    replace (zlen (240 :: payload)) with (zlen payload + 1) by (unfold zlen; cbn [length]; lia).
+    repeat (apply andb_true_intro; split); try reflexivity; lia. }
+  assert (W : wire 0 [ev_sysex_raw time (240 :: payload)] = [(time, MSysEx payload)]).
+  { ev_unfold. wire_cbn. cbn [Z.eqb Pos.eqb]. repeat f_equal; lia. }
+  pose proof (track_of_wire _ _ Hok W (deltas_one time _ [] Ht)) as T. norm_bytes T.
+  cbn [app]. rewrite <- ?app_assoc in T. exact T.
+Qed.
+
+(* Event::sysex in checksum mode *)
+Definition zsum (l : list Z) : Z := fold_right Z.add 0 l.
+Definition no_marker (l : list Z) : Prop := Forall (fun x => x <> -1 /\ x <> -2) l.
+
+Lemma sum_loop_before pre : forall r s, Forall (fun x => x <> -1) pre ->
+  sysex_sum_loop (pre ++ r) false s = map as_u8 pre ++ sysex_sum_loop r false s.
+Proof.
+  induction pre as [|x pre IH]; intros r s H; [reflexivity|].
+  inversion H; subst. cbn [app sysex_sum_loop andb map].
+  replace (x =? -1) with false by lia. rewrite IH by assumption. reflexivity.
+Qed.
+Lemma sum_loop_inside body : forall r s, no_marker body ->
+  sysex_sum_loop (body ++ r) true s = map as_u8 body ++ sysex_sum_loop r true (s + zsum body).
+Proof.
+  induction body as [|x body IH]; intros r s H.
+  - cbn [app map zsum fold_right]. rewrite Z.add_0_r. reflexivity.
+  - inversion H as [|? ? [H1 H2] H3]; subst. cbn [app sysex_sum_loop andb map].
+    replace (x =? -2) with false by lia. replace (x =? -1) with false by lia.
+    rewrite IH by assumption. cbn [zsum fold_right]. fold (zsum body). rewrite Z.add_assoc. reflexivity.
+Qed.
+Lemma zsum_u8_mod body : zsum (map as_u8 body) mod 128 = zsum body mod 128.
+Proof.
+  induction body as [|x body IH]; [reflexivity|].
+  cbn [map zsum fold_right]. fold (zsum (map as_u8 body)). fold (zsum body).
+  rewrite (Z.add_mod (as_u8 x)), (Z.add_mod x) by lia. rewrite IH.
+  replace (as_u8 x mod 128) with (x mod 128) by (unfold as_u8; lia). reflexivity.
+Qed.
+Lemma zsum_app a b : zsum (a ++ b) = zsum a + zsum b.
+Proof. induction a; cbn [app zsum fold_right]; [reflexivity|]. fold (zsum (a0 ++ b)). fold (zsum a0). lia. Qed.
+
+Lemma roland_checksum_law time pre body post :
+  Forall (fun x => x <> -1) pre -> no_marker body ->
+  let cs := roland_checksum (map as_u8 body) in
+  ev_sysex time (pre ++ [-1] ++ body ++ [-2] ++ post) true
+    = ev_sysex_raw time (map as_u8 pre ++ map as_u8 body ++ [cs] ++ sysex_sum_loop post false (zsum body)) /\
+  0 <= cs < 128 /\ (zsum (map as_u8 body) + cs) mod 128 = 0 /\ roland_ok (map as_u8 body ++ [cs]) = true.
+Proof.
+  intros Hp Hb cs. unfold ev_sysex.
+  assert (L : (zsum (map as_u8 body) + cs) mod 128 = 0).
+  { unfold cs, roland_checksum. fold (zsum (map as_u8 body)). lia. }
+  split; [|split; [|split]].
+  - f_equal. rewrite sum_loop_before by assumption. f_equal.
+    cbn [app sysex_sum_loop andb]. cbn [Z.eqb Pos.eqb]. rewrite sum_loop_inside by assumption. f_equal.
+    cbn [app sysex_sum_loop andb]. cbn [Z.eqb Pos.eqb]. f_equal.
+    rewrite Z.add_0_l. rewrite !land_127. unfold cs, roland_checksum. fold (zsum (map as_u8 body)).
+    rewrite zsum_u8_mod. apply as_u8_small. lia.
+  - unfold cs, roland_checksum. lia.
+  - exact L.
+  - unfold roland_ok. fold (zsum (map as_u8 body ++ [cs])). rewrite zsum_app. cbn [zsum fold_right].
+    apply Z.eqb_eq. rewrite Z.add_0_r. exact L.
+Qed.
+
+Lemma map_as_u8_bytes l : Forall (fun x => 0 <= x <= 255) l -> map as_u8 l = l.
+Proof. induction 1; cbn [map]; [reflexivity|]. rewrite as_u8_small by lia. f_equal. assumption. Qed.
+Lemma bytes_no_marker l : Forall (fun x => 0 <= x <= 255) l -> no_marker l.
+Proof. unfold no_marker. intros H. eapply Forall_impl; [|exact H]. cbn beta. intros. lia. Qed.
+
+(* GS data set (DT1) as the model builds it = the GS format with the Roland checksum *)
+Lemma gs_dt1_eq time dev body : 0 <= dev <= 255 -> Forall (fun x => 0 <= x <= 255) body ->
+  gs_dt1 time dev body = ev_sysex_raw time (240 :: GS_DT1 dev body).
+Proof.
+  intros Hd Hb. unfold gs_dt1.
+  change ([240; 65; dev; 66; 18; -1] ++ body ++ [-2; 247]) with ([240; 65; dev; 66; 18] ++ [-1] ++ body ++ [-2] ++ [247]).
+  destruct (roland_checksum_law time [240; 65; dev; 66; 18] body [247]) as [E _].
+  { repeat constructor; lia. } { apply bytes_no_marker; assumption. }
+  rewrite E. rewrite (map_as_u8_bytes body Hb).
+  cbn [map sysex_sum_loop andb]. cbn [Z.eqb Pos.eqb]. rewrite !as_u8_small by lia.
+  unfold GS_DT1. cbn [app]. reflexivity.
+Qed.
+
+(* resets *)
+Lemma reset_eq time dev :
+  cmd_sysex_reset time dev 0 = [ev_sysex_raw time (240 :: GM_SYSTEM_ON)] /\
+  cmd_sysex_reset time dev 1 = [ev_sysex_raw time (240 :: GS_RESET dev)] /\
+  cmd_sysex_reset time dev 2 = [ev_sysex_raw time (240 :: XG_SYSTEM_ON dev)].
+Proof. repeat split. Qed.
+
+(* universal real time: master volume / balance *)
+Lemma master_volume_eq time v : 0 <= v <= 127 ->
+  cmd_sysex_command time 1 [v] = [ev_sysex_raw time (240 :: MASTER_VOLUME v)].
+Proof.
+  intros H. unfold cmd_sysex_command. cbn [as_u8 Z.modulo Z.div_eucl Z.pos_div_eucl Z.land Pos.land Z.eqb Pos.eqb].
+  change (Z.land (as_u8 1) 127 =? 1) with true. cbn match.
+  unfold ev_sysex. cbn [map]. rewrite land_127. rewrite (as_u8_small v) by lia.
+  replace (v mod 128) with v by lia. rewrite !as_u8_small by lia. reflexivity.
+Qed.
+Lemma master_balance_eq time v : -8192 <= v <= 8191 ->
+  cmd_sysex_command time 2 [v] = [ev_sysex_raw time (240 :: MASTER_BALANCE (v + BEND_CENTRE))].
+Proof.
+  intros H. unfold cmd_sysex_command.
+  change (Z.land (as_u8 2) 127 =? 1) with false. change (Z.land (as_u8 2) 127 =? 2) with true. cbn match.
+  unfold ev_sysex, BEND_CENTRE. cbn [map]. rewrite !land_127, shiftr_7.
+  rewrite !as_u8_small by lia. unfold MASTER_BALANCE.
+  replace (((v + 8192) / 128) mod 128) with ((v + 8192) / 128) by lia. reflexivity.
+Qed.
+
+(* ---- UTF-8 ---- *)
+Lemma land_63 v : Z.land v 63 = v mod 64.
+Proof. change 63 with (Z.ones 6). rewrite Z.land_ones by lia. reflexivity. Qed.
+
+(* the model's encoder is the RFC's bit layout *)
+Lemma utf8_char_spec c : utf8_char c = utf8_bytes c.
+Proof.
+  unfold utf8_char, utf8_bytes. rewrite !land_63, !shiftr_k by lia.
+  change (2 ^ 6) with 64. change (2 ^ 12) with 4096. change (2 ^ 18) with 262144.
+  replace (c <=? 127) with (c <? 128) by lia. replace (c <=? 2047) with (c <? 2048) by lia.
+  replace (c <=? 65535) with (c <? 65536) by lia. reflexivity.
+Qed.
+Lemma utf8_encode_spec s : utf8_encode s = utf8 s.
+Proof. unfold utf8_encode, utf8. induction s; cbn [flat_map]; [reflexivity|]. rewrite utf8_char_spec, IHs. reflexivity. Qed.
+Lemma utf8_char_len c : zlen (utf8_char c) = utf8_len c.
+Proof. unfold utf8_char, utf8_len. destruct (c <? 128); [reflexivity|]. destruct (c <? 2048); [reflexivity|]. destruct (c <? 65536); reflexivity. Qed.
+Lemma utf8_len_pos c : 1 <= utf8_len c <= 4.
+Proof. unfold utf8_len. destruct (c <? 128); [lia|]. destruct (c <? 2048); [lia|]. destruct (c <? 65536); lia. Qed.
+Lemma utf8_app a b : utf8 (a ++ b) = utf8 a ++ utf8 b.
+Proof. unfold utf8. apply flat_map_app. Qed.
+Lemma zlen_app {A} (a b : list A) : zlen (a ++ b) = zlen a + zlen b.
+Proof. unfold zlen. rewrite app_length. lia. Qed.
+Lemma zlen_nonneg {A} (a : list A) : 0 <= zlen a.
+Proof. unfold zlen. lia. Qed.
+
+(* every byte of an encoding of scalar values is a byte *)
+Lemma utf8_bytes_ok c : 0 <= c < 1114112 -> forallb byte_ok (utf8_bytes c) = true.
+Proof.
+  intros H. rewrite <- utf8_char_spec. unfold utf8_char, byte_ok.
+  destruct (c <? 128) eqn:A; [cbn [forallb]; repeat (apply andb_true_intro; split); lia|].
+  destruct (c <? 2048) eqn:B; [cbn [forallb]; repeat (apply andb_true_intro; split); lia|].
+  destruct (c <? 65536) eqn:C; cbn [forallb]; repeat (apply andb_true_intro; split); lia.
+Qed.
+Lemma utf8_ok s : Forall scalar s -> forallb byte_ok (utf8 s) = true.
+Proof.
+  induction 1 as [|c s Hc Hs IH]; [reflexivity|]. unfold utf8. cbn [flat_map]. rewrite forallb_app.
+  fold (utf8 s). rewrite IH. rewrite utf8_bytes_ok by (unfold scalar in Hc; lia). reflexivity.
+Qed.
+
+(* strict decoder inverts the encoder on scalar values *)
+Lemma decode1_encode c r : scalar c -> utf8_decode1 (utf8_bytes c ++ r) = Some (c, r).
+Proof.
+  intros H. rewrite <- utf8_char_spec. unfold utf8_char, scalar in *.
+  destruct (c <? 128) eqn:A.
+  { cbn [app utf8_decode1]. replace ((0 <=? c) && (c <? 128)) with true by lia. reflexivity. }
+  destruct (c <? 2048) eqn:B.
+  { cbn [app utf8_decode1]. set (b0 := 192 + c / 64). set (b1 := 128 + c mod 64).
+    replace ((0 <=? b0) && (b0 <? 128)) with false by (unfold b0; lia).
+    replace ((192 <=? b0) && (b0 <? 224)) with true by (unfold b0; lia).
+    unfold cont. replace ((128 <=? b1) && (b1 <? 192)) with true by (unfold b1; lia).
+    replace ((b0 - 192) * 64 + (b1 - 128)) with c by (unfold b0, b1; lia).
+    replace (128 <=? c) with true by lia. reflexivity. }
+  destruct (c <? 65536) eqn:C.
+  { cbn [app utf8_decode1]. set (b0 := 224 + c / 4096). set (b1 := 128 + (c / 64) mod 64). set (b2 := 128 + c mod 64).
+    replace ((0 <=? b0) && (b0 <? 128)) with false by (unfold b0; lia).
+    replace ((192 <=? b0) && (b0 <? 224)) with false by (unfold b0; lia).
+    replace ((224 <=? b0) && (b0 <? 240)) with true by (unfold b0; lia).
+    unfold cont. replace ((128 <=? b1) && (b1 <? 192)) with true by (unfold b1; lia).
+    replace ((128 <=? b2) && (b2 <? 192)) with true by (unfold b2; lia).
+    replace (((b0 - 224) * 64 + (b1 - 128)) * 64 + (b2 - 128)) with c by (unfold b0, b1, b2; lia).
+    replace (2048 <=? c) with true by lia. unfold scalarb.
+    replace (((0 <=? c) && (c <? 55296)) || ((57344 <=? c) && (c <? 1114112))) with true by lia. reflexivity. }
+  cbn [app utf8_decode1].
+  set (b0 := 240 + c / 262144). set (b1 := 128 + (c / 4096) mod 64). set (b2 := 128 + (c / 64) mod 64). set (b3 := 128 + c mod 64).
+  replace ((0 <=? b0) && (b0 <? 128)) with false by (unfold b0; lia).
+  replace ((192 <=? b0) && (b0 <? 224)) with false by (unfold b0; lia).
+  replace ((224 <=? b0) && (b0 <? 240)) with false by (unfold b0; lia).
+  replace ((240 <=? b0) && (b0 <? 248)) with true by (unfold b0; lia).
+  unfold cont. replace ((128 <=? b1) && (b1 <? 192)) with true by (unfold b1; lia).
+  replace ((128 <=? b2) && (b2 <? 192)) with true by (unfold b2; lia).
+  replace ((128 <=? b3) && (b3 <? 192)) with true by (unfold b3; lia).
+  replace ((((b0 - 240) * 64 + (b1 - 128)) * 64 + (b2 - 128)) * 64 + (b3 - 128)) with c by (unfold b0, b1, b2, b3; lia).
+  replace (65536 <=? c) with true by lia. unfold scalarb.
+  replace (((0 <=? c) && (c <? 55296)) || ((57344 <=? c) && (c <? 1114112))) with true by lia. reflexivity.
+Qed.
+Lemma utf8_bytes_nonempty c : exists b t, utf8_bytes c = b :: t.
+Proof.
+  unfold utf8_bytes. destruct (c <=? 127); [eauto|]. destruct (c <=? 2047); [eauto|]. destruct (c <=? 65535); eauto.
+Qed.
+Lemma decode_encode_f s : forall fuel, Forall scalar s -> (length s < fuel)%nat -> utf8_decode_f fuel (utf8 s) = Some s.
+Proof.
+  induction s as [|c s IH]; intros fuel H F.
+  - destruct fuel; [lia|]. reflexivity.
+  - inversion H; subst. destruct fuel as [|f]; [lia|]. cbn [length] in F.
+    unfold utf8. cbn [flat_map]. fold (utf8 s). cbn [utf8_decode_f].
+    destruct (utf8_bytes_nonempty c) as [b [t E]].
+    assert (N : utf8_bytes c ++ utf8 s = b :: (t ++ utf8 s)) by (rewrite E; reflexivity).
+    rewrite N. rewrite <- N. rewrite decode1_encode by assumption.
+    rewrite IH by (try assumption; lia). try reflexivity.
+Qed.
+Lemma utf8_length_ge s : (length s <= length (utf8 s))%nat.
+Proof.
+  induction s as [|c s IH]; [cbn; lia|]. unfold utf8. cbn [flat_map length]. fold (utf8 s). rewrite app_length.
+  destruct (utf8_bytes_nonempty c) as [b [t E]]. rewrite E. cbn [length]. lia.
+Qed.
+Theorem utf8_roundtrip s : Forall scalar s -> utf8_decode (utf8 s) = Some s.
+Proof. intros H. unfold utf8_decode. apply decode_encode_f; [assumption|]. pose proof (utf8_length_ge s). lia. Qed.
+
+(* ---- the cut of MetaText ---- *)
+Lemma meta_cut_fit s : forall cnt, meta_cut s cnt = fit_below (128 - cnt) s.
+Proof.
+  induction s as [|c s IH]; intros cnt; [reflexivity|]. cbn [meta_cut fit_below].
+  rewrite <- utf8_char_spec. fold (zlen (utf8_char c)). rewrite utf8_char_len.
+  replace (cnt + utf8_len c <? 128) with (utf8_len c <? 128 - cnt) by lia.
+  destruct (utf8_len c <? 128 - cnt); [|reflexivity]. rewrite IH. f_equal. f_equal. lia.
+Qed.
+Lemma fit_below_spec s : forall L, 0 < L ->
+  exists rest, s = fit_below L s ++ rest /\ zlen (utf8 (fit_below L s)) < L /\
+    (rest = [] \/ exists c r, rest = c :: r /\ L <= zlen (utf8 (fit_below L s ++ [c]))).
+Proof.
+  induction s as [|c s IH]; intros L HL.
+  - exists []. cbn. repeat split; auto.
+  - cbn [fit_below]. fold (zlen (utf8_bytes c)). set (n := zlen (utf8_bytes c)).
+    assert (1 <= n <= 4) by (unfold n; rewrite <- utf8_char_spec, utf8_char_len; apply utf8_len_pos).
+    destruct (n <? L) eqn:E.
+    + destruct (IH (L - n) ltac:(lia)) as [rest [E1 [E2 E3]]]. exists rest. split; [|split].
+      * cbn [app]. f_equal. exact E1.
+      * change (c :: fit_below (L - n) s) with ([c] ++ fit_below (L - n) s). rewrite utf8_app, zlen_app.
+        unfold utf8 at 1. cbn [flat_map]. rewrite app_nil_r. fold n. lia.
+      * destruct E3 as [->|[c' [r [-> E4]]]]; [left; reflexivity|]. right. exists c', r. split; [reflexivity|].
+        change ((c :: fit_below (L - n) s) ++ [c']) with ([c] ++ (fit_below (L - n) s ++ [c'])).
+        rewrite utf8_app, zlen_app. unfold utf8 at 1. cbn [flat_map]. rewrite app_nil_r. fold n. lia.
+    + exists (c :: s). split; [reflexivity|]. split; [unfold zlen; cbn; lia|]. right. exists c, s. split; [reflexivity|].
+      cbn [app]. unfold utf8. cbn [flat_map]. rewrite app_nil_r. fold n. lia.
+Qed.
+
+Theorem meta_text_thm time ty txt : Forall scalar txt ->
+  exists kept rest,
+    txt = kept ++ rest /\
+    cmd_meta_text time ty txt = [ev_meta time 255 ty (zlen (utf8 kept)) (utf8 kept)] /\
+    utf8 txt = utf8 kept ++ utf8 rest /\
+    utf8_decode (utf8 kept) = Some kept /\
+    zlen (utf8 kept) < 128 /\
+    (rest = [] \/ exists c r, rest = c :: r /\ 128 <= zlen (utf8 (kept ++ [c]))).
+Proof.
+  intros H. destruct (fit_below_spec txt 128 ltac:(lia)) as [rest [E1 [E2 E3]]].
+  exists (fit_below 128 txt), rest. split; [exact E1|]. split; [|split; [|split; [|split]]].
+  - unfold cmd_meta_text. rewrite utf8_encode_spec, meta_cut_fit. reflexivity.
+  - rewrite <- utf8_app, <- E1. reflexivity.
+  - apply utf8_roundtrip. rewrite E1 in H. apply Forall_app in H. tauto.
+  - exact E2.
+  - exact E3.
+Qed.
+Lemma meta_text_eq time ty txt : cmd_meta_text time ty txt = [ev_meta time 255 ty (zlen (utf8 (fit_below 128 txt))) (utf8 (fit_below 128 txt))].
+Proof. unfold cmd_meta_text. rewrite utf8_encode_spec, meta_cut_fit. reflexivity. Qed.
+
+(* on the wire: FF ty len payload, decoded as the meta event of that type *)
+Lemma meta_text_bytes time ty txt : 0 <= time < 2 ^ 28 -> 1 <= ty <= 7 -> Forall scalar txt ->
+  let p := utf8 (fit_below 128 txt) in
+  generate_track (cmd_meta_text time ty txt) = Ok (push_delta time ++ [255; ty; zlen p] ++ p ++ EOT) /\
+  decode_track (push_delta time ++ [255; ty; zlen p] ++ p ++ EOT) = Some [(time, MMeta ty p); EOTmsg] /\ zlen p < 128.
+Proof.
+  intros Ht Hty Hs p. rewrite meta_text_eq. fold p.
+  destruct (fit_below_spec txt 128 ltac:(lia)) as [rest [E1 [E2 E3]]]. fold p in E2.
+  assert (Hb : forallb byte_ok p = true).
+  { apply utf8_ok. rewrite E1 in Hs. apply Forall_app in Hs. tauto. }
+  pose proof (zlen_nonneg p) as Hp.
+  assert (Hok : forallb event_ok [ev_meta time 255 ty (zlen p) p] = true).
+  { unfold event_ok, ev_meta, bytes_ok, data7. cbn [forallb e_type e_data e_v1 e_v2 e_v3]. rewrite Hb.
+    replace (ty =? 47) with false by lia.
+    repeat (apply andb_true_intro; split); try reflexivity; lia. }
+  assert (W : wire 0 [ev_meta time 255 ty (zlen p) p] = [(time, MMeta ty p)]).
+  { ev_unfold. wire_cbn. repeat f_equal; lia. }
+  pose proof (track_of_wire _ _ Hok W (deltas_one time _ [] Ht)) as T. norm_bytes T.
+  rewrite (push_delta_small (zlen p)) in T by lia. cbn [app] in T. split; [exact (proj1 T)|]. split; [exact (proj2 T)|exact E2].
+Qed.
+
+(* ------------------------------------------------------------------------------------------ *)
+(* the model meets the prescription                                                            *)
+(* ------------------------------------------------------------------------------------------ *)
+(* what a row of the table makes exec() do, as a prescription class (type and tags only) *)
+Definition row_prescription (r : sysfunc) : option prescription :=
+  match sf_type r with
+  | TkControlChangeCommand => Some (PController (sf_tag1 r))
+  | TkControlChange => Some PControlChange
+  | TkVoice => Some PProgram
+  | TkTempo => Some PTempo
+  | TkTimeSignature => Some PTimeSig
+  | TkMetaText => Some (PText (sf_tag1 r))
+  | TkPort => Some PPort
+  | TkPitchBend => Some PBend
+  | TkRPN => Some PRpnDirect
+  | TkNRPN => Some PNrpnDirect
+  | TkRPNCommand => Some (PRpn (sf_tag1 r, sf_tag2 r))
+  | TkNRPNCommand => Some (PNrpn (sf_tag1 r, sf_tag2 r))
+  | TkSysexReset =>
+      if sf_tag1 r =? 0 then Some (PFixedSysEx GM_SYSTEM_ON)
+      else if sf_tag1 r =? 1 then Some (PFixedSysEx (GS_RESET DEFAULT_DEVICE))
+      else if sf_tag1 r =? 2 then Some (PFixedSysEx (XG_SYSTEM_ON DEFAULT_DEVICE)) else None
+  | TkSysExCommand => if sf_tag1 r =? 1 then Some PMasterVolume else if sf_tag1 r =? 2 then Some PMasterBalance else None
+  | TkGSEffect =>
+      if sf_tag1 r =? 0 then Some PGsEffectDirect else if sf_tag1 r =? 17 then Some PGsScaleTuning
+      else if sf_tag1 r =? 21 then Some PGsRhythm
+      else if (48 <=? sf_tag1 r) && (sf_tag1 r <=? 64) then Some (PGsEffect (sf_tag1 r)) else None
+  | _ => None
+  end.
+
+Definition presc_code (p : prescription) : list Z :=
+  match p with
+  | PController n => [1; n] | PControlChange => [2] | PProgram => [3] | PTempo => [4] | PTimeSig => [5]
+  | PText t => [6; t] | PPort => [7] | PBend => [8] | PBendSmall => [9]
+  | PRpn (m, l) => [10; m; l] | PNrpn (m, l) => [11; m; l] | PRpnDirect => [12] | PNrpnDirect => [13]
+  | PFixedSysEx pl => 14 :: pl | PMasterVolume => [15] | PMasterBalance => [16]
+  | PGsEffect a => [17; a] | PGsEffectDirect => [18] | PGsRhythm => [19] | PGsScaleTuning => [20]
+  end.
+Lemma presc_code_inj a b : presc_code a = presc_code b -> a = b.
+Proof.
+  destruct a as [| | | | | | | | | [? ?] | [? ?] | | | | | | | | |], b as [| | | | | | | | | [? ?] | [? ?] | | | | | | | | |];
+    cbn [presc_code]; intros H; try discriminate; inversion H; reflexivity.
+Qed.
+
+Definition is_char_name (n : list Z) : bool := match n with [c] => (c =? 112) || (c =? 121) || (c =? 64) | _ => false end.
+Definition all_prescribed_names : list (list Z) := map fst prescribed ++ concat doc_alias_groups.
+Definition name_row_ok (n : list Z) : bool :=
+  match prescription_of n with
+  | None => true
+  | Some p =>
+      if is_char_name n then true
+      else match find_sysfunc n sysfuncs with
+           | Some r => match row_prescription r with Some q => zlist_eq (presc_code q) (presc_code p) | None => false end
+           | None => false
+           end
+  end.
+Lemma names_rows_b : forallb name_row_ok all_prescribed_names = true.
+Proof. vm_compute. reflexivity. Qed.
+
+Lemma group_of_In n gs g : group_of n gs = Some g -> In g gs /\ In n g.
+Proof.
+  induction gs as [|x gs IH]; cbn [group_of]; [discriminate|].
+  destruct (mem_name n x) eqn:M.
+  - intros H. inversion H. subst. split; [left; reflexivity|].
+    unfold mem_name in M. apply existsb_exists in M. destruct M as [y [Hy E]]. apply zlist_eq_eq in E. subst. exact Hy.
+  - intros H. destruct (IH H). split; [right|]; assumption.
+Qed.
+Lemma prescription_names n p : prescription_of n = Some p -> In n all_prescribed_names.
+Proof.
+  unfold prescription_of, all_prescribed_names. intros H. apply in_or_app.
+  destruct (assoc n prescribed) eqn:A.
+  - left. apply assoc_In in A. apply (in_map fst) in A. exact A.
+  - right. destruct (group_of n doc_alias_groups) as [g|] eqn:G; [|discriminate].
+    apply group_of_In in G. destruct G as [G1 G2]. apply in_concat. exists g. auto.
+Qed.
+(* every spelling with a prescription that is not one of p, y, @ is a row whose class is that prescription *)
+Lemma prescribed_row n p : prescription_of n = Some p -> is_char_name n = false ->
+  exists r, In r sysfuncs /\ sf_name r = n /\ row_prescription r = Some p.
+Proof.
+  intros H C. pose proof (proj1 (forallb_forall _ _) names_rows_b n (prescription_names n p H)) as U.
+  unfold name_row_ok in U. rewrite H, C in U.
+  destruct (find_sysfunc n sysfuncs) as [r|] eqn:F; [|discriminate].
+  destruct (row_prescription r) as [q|] eqn:Q; [|discriminate].
+  apply zlist_eq_eq, presc_code_inj in U. subst q. apply find_sysfunc_In in F. destruct F. exists r. auto.
+Qed.
+
+Definition meets (evs : list event) (time : Z) (ms : list msg) : Prop :=
+  forallb event_ok evs = true /\ wire 0 evs = spec_items time ms.
+
+(* tags of the rows that become data bytes are data bytes *)
+Definition tags_ok (r : sysfunc) : bool :=
+  if ttype_eqb (sf_type r) TkControlChangeCommand || ttype_eqb (sf_type r) TkRPNCommand || ttype_eqb (sf_type r) TkNRPNCommand
+  then (0 <=? sf_tag1 r) && (sf_tag1 r <=? 127) && (0 <=? sf_tag2 r) && (sf_tag2 r <=? 127)
+  else if ttype_eqb (sf_type r) TkMetaText then (1 <=? sf_tag1 r) && (sf_tag1 r <=? 7)
+  else true.
+Lemma tags_ok_b : forallb tags_ok sysfuncs = true.
+Proof. vm_compute. reflexivity. Qed.
+Lemma tags_data r : In r sysfuncs ->
+  sf_type r = TkControlChangeCommand \/ sf_type r = TkRPNCommand \/ sf_type r = TkNRPNCommand ->
+  0 <= sf_tag1 r <= 127 /\ 0 <= sf_tag2 r <= 127.
+Proof.
+  intros H T. pose proof (proj1 (forallb_forall _ _) tags_ok_b r H) as U. unfold tags_ok in U.
+  destruct T as [T|[T|T]]; rewrite T in U; cbn [ttype_eqb ttype_id Z.eqb Pos.eqb orb] in U; lia.
+Qed.
+Lemma tags_meta r : In r sysfuncs -> sf_type r = TkMetaText -> 1 <= sf_tag1 r <= 7.
+Proof.
+  intros H T. pose proof (proj1 (forallb_forall _ _) tags_ok_b r H) as U. unfold tags_ok in U.
+  rewrite T in U; cbn [ttype_eqb ttype_id Z.eqb Pos.eqb orb] in U; lia.
+Qed.
+
+Lemma select_data_wire time ch cc1 cc2 cc3 m l v : 0 <= time -> 0 <= ch <= 15 ->
+  0 <= cc1 <= 127 -> 0 <= cc2 <= 127 -> 0 <= cc3 <= 127 -> 0 <= m <= 127 -> 0 <= l <= 127 -> 0 <= v <= 127 ->
+  wire 0 (cmd_select_data time ch cc1 cc2 cc3 m l v) = [(time, MCC ch cc1 m); (0, MCC ch cc2 l); (0, MCC ch cc3 v)].
+Proof. intros. ev_unfold. wire_cbn. rewrite !clamp_id by lia. repeat f_equal; lia. Qed.
+Lemma voice1_wire time ch n : 0 <= time -> 0 <= ch <= 15 -> 1 <= n <= 128 ->
+  wire 0 (cmd_voice time ch [n]) = [(time, MProgram ch (n - 1))].
+Proof.
+  intros. rewrite voice1_eq. ev_unfold. wire_cbn. rewrite (clamp_id 1 128 n) by lia. rewrite !clamp_id by lia. repeat f_equal; lia.
+Qed.
+Lemma voice3_wire time ch n msb lsb : 0 <= time -> 0 <= ch <= 15 -> 1 <= n <= 128 -> 0 <= msb <= 127 -> 0 <= lsb <= 127 ->
+  wire 0 (cmd_voice time ch [n; msb; lsb]) = [(time, MCC ch 0 msb); (0, MCC ch 32 lsb); (0, MProgram ch (n - 1))].
+Proof.
+  intros. rewrite voice3_eq. ev_unfold. wire_cbn. rewrite (clamp_id 1 128 n) by lia. rewrite !clamp_id by lia. repeat f_equal; lia.
+Qed.
+Lemma bend_wire time ch v14 : 0 <= time -> 0 <= ch <= 15 -> 0 <= v14 <= 16383 ->
+  wire 0 [ev_pitch_bend time ch v14] = [(time, MBend ch (bend_lsb v14) (bend_msb v14))].
+Proof. intros. ev_unfold. wire_cbn. rewrite !clamp_id by lia. unfold bend_lsb, bend_msb. repeat f_equal; lia. Qed.
+Lemma meta_meets time ty p : 0 <= time -> 0 <= ty <= 127 -> ty <> 47 -> forallb byte_ok p = true -> zlen p < 128 ->
+  meets [ev_meta time 255 ty (zlen p) p] time [MMeta ty p].
+Proof.
+  intros Ht Hty H47 Hb Hl. pose proof (zlen_nonneg p). split.
+  - unfold event_ok, ev_meta, bytes_ok, data7. cbn [forallb e_type e_data e_v1 e_v2 e_v3]. rewrite Hb.
+    replace (ty =? 47) with false by lia. repeat (apply andb_true_intro; split); try reflexivity; lia.
+  - ev_unfold. wire_cbn. cbn [spec_items map]. repeat f_equal; lia.
+Qed.
+Lemma sysex_meets time payload : 0 <= time -> forallb byte_ok payload = true -> zlen payload + 1 < 2 ^ 28 ->
+  meets [ev_sysex_raw time (240 :: payload)] time [MSysEx payload].
+Proof.
+  intros Ht Hb Hl. split.
+  - unfold event_ok, ev_sysex_raw, bytes_ok. cbn [forallb e_type e_data]. rewrite Hb.
+    replace (zlen (240 :: payload)) with (zlen payload + 1) by (unfold zlen; cbn [length]; lia).
+    repeat (apply andb_true_intro; split); try reflexivity; lia.
+  - ev_unfold. wire_cbn. cbn [Z.eqb Pos.eqb spec_items map]. repeat f_equal; lia.
+Qed.
+Lemma roland_range body : 0 <= roland_checksum body < 128.
+Proof. unfold roland_checksum. lia. Qed.
+Lemma gs4_meets time dev a b c d : 0 <= time -> 0 <= dev <= 127 -> 0 <= a <= 127 -> 0 <= b <= 127 -> 0 <= c <= 127 -> 0 <= d <= 127 ->
+  meets [gs_dt1 time dev [a; b; c; d]] time [MSysEx (GS_DT1 dev [a; b; c; d])].
+Proof.
+  intros. rewrite gs_dt1_eq by (try lia; repeat constructor; lia).
+  apply sysex_meets; [lia| |unfold zlen; cbn; lia].
+  pose proof (roland_range [a; b; c; d]). unfold GS_DT1, byte_ok. cbn [app forallb].
+  repeat (apply andb_true_intro; split); try reflexivity; lia.
+Qed.
+
+(* several events at one tick: the first carries the delta, the others follow at delta 0 *)
+Lemma wire_same_time time evs ms : forall tp, time <= tp ->
+  Forall2 (fun e m => e_time e = time /\ wire_msgs e = [m]) evs ms ->
+  wire tp evs = map (fun m => (0, m)) ms.
+Proof.
+  intros tp Htp F. revert tp Htp. induction F as [|e m evs ms [Ht Hm] F IH]; intros tp Htp; [reflexivity|].
+  cbn [wire map]. rewrite Hm, Ht. cbn [map app]. f_equal; [f_equal; lia|]. apply IH. lia.
+Qed.
+Lemma wire_burst time evs ms : 0 <= time ->
+  Forall2 (fun e m => e_time e = time /\ wire_msgs e = [m]) evs ms -> wire 0 evs = spec_items time ms.
+Proof.
+  intros Ht F. destruct F as [|e m evs ms [Ht' Hm] F]; [reflexivity|].
+  cbn [wire spec_items]. rewrite Hm, Ht'. cbn [map app]. f_equal; [f_equal; lia|].
+  apply (wire_same_time time); [lia|assumption].
+Qed.
+Lemma sysex_event_ok time pl : forallb byte_ok pl = true -> zlen pl + 1 < 2 ^ 28 -> event_ok (ev_sysex_raw time (240 :: pl)) = true.
+Proof.
+  intros Hb Hl. unfold event_ok, ev_sysex_raw, bytes_ok. cbn [forallb e_type e_data]. rewrite Hb.
+  replace (zlen (240 :: pl)) with (zlen pl + 1) by (unfold zlen; cbn [length]; lia).
+  repeat (apply andb_true_intro; split); try reflexivity; lia.
+Qed.
+Lemma forallb_d7_Forall l : forallb CmdSpec.d7 l = true -> Forall (fun x => 0 <= x <= 127) l.
+Proof.
+  induction l as [|x l IH]; cbn [forallb]; intros H; constructor.
+  - apply andb_prop in H. destruct H as [H _]. unfold CmdSpec.d7 in H. lia.
+  - apply IH. apply andb_prop in H. tauto.
+Qed.
+Lemma Forall_bytes_ok l : Forall (fun x => 0 <= x <= 127) l -> forallb byte_ok l = true.
+Proof. induction 1; cbn [forallb]; [reflexivity|]. rewrite IHForall. unfold byte_ok. lia. Qed.
+Lemma gs_bytes_ok dev body : 0 <= dev <= 127 -> Forall (fun x => 0 <= x <= 127) body -> forallb byte_ok (GS_DT1 dev body) = true.
+Proof.
+  intros Hd Hb. pose proof (roland_range body). unfold GS_DT1. rewrite !forallb_app. rewrite (Forall_bytes_ok body Hb).
+  unfold byte_ok. cbn [forallb]. repeat (apply andb_true_intro; split); try reflexivity; lia.
+Qed.
+
+Lemma scale_meets time dev args : 0 <= time -> 0 <= dev <= 127 -> length args = 12%nat -> forallb CmdSpec.d7 args = true ->
+  meets (map (fun ic => gs_dt1 time dev ([64; ic; 64] ++ firstn 12 args)) [17; 18; 19; 20; 21; 22; 23; 24; 25; 26; 27; 28; 29; 30; 31]) time
+        (map (fun x => MSysEx (GS_DT1 dev ([64; 16 + x; 64] ++ args))) [1; 2; 3; 4; 5; 6; 7; 8; 9; 10; 11; 12; 13; 14; 15]).
+Proof.
+  intros Ht Hd Hl Hv. rewrite firstn_all2 by lia. apply forallb_d7_Forall in Hv.
+  assert (B : forall ic, 0 <= ic <= 127 -> Forall (fun x => 0 <= x <= 127) ([64; ic; 64] ++ args)).
+  { intros ic Hic. apply Forall_app. split; [repeat constructor; lia|assumption]. }
+  assert (E : forall ic, 0 <= ic <= 127 ->
+               gs_dt1 time dev ([64; ic; 64] ++ args) = ev_sysex_raw time (240 :: GS_DT1 dev ([64; ic; 64] ++ args))).
+  { intros ic Hic. apply gs_dt1_eq; [lia|]. eapply Forall_impl; [|apply (B ic Hic)]. cbn beta. intros. lia. }
+  assert (K : forall ic, 0 <= ic <= 127 -> event_ok (ev_sysex_raw time (240 :: GS_DT1 dev ([64; ic; 64] ++ args))) = true).
+  { intros ic Hic. apply sysex_event_ok; [apply gs_bytes_ok; [lia|apply B; lia]|].
+    unfold GS_DT1, zlen. rewrite !app_length. cbn [length]. rewrite Hl. cbn. lia. }
+  cbn [map]. rewrite !E by lia. split.
+  - cbn [forallb]. rewrite !K by lia. reflexivity.
+  - apply wire_burst; [assumption|]. cbn [Z.add Pos.add Pos.succ].
+    repeat (constructor; [split; reflexivity|]). constructor.
+Qed.
+
+Ltac split_conds S :=
+  repeat match type of S with
+         | (if ?c then _ else _) = Some _ => let E := fresh "E" in destruct c eqn:E; [|discriminate S]
+         | match ?c with Some _ => _ | None => _ end = Some _ => let E := fresh "E" in destruct c eqn:E; [|discriminate S]
+         end.
+Ltac bools :=
+  repeat match goal with
+         | H : CmdSpec.d7 _ = true |- _ => unfold CmdSpec.d7 in H
+         | H : d14s _ = true |- _ => unfold d14s in H
+         | H : _ && _ = true |- _ => apply andb_prop in H; destruct H
+         | H : (_ <=? _) = true |- _ => apply Z.leb_le in H
+         | H : (_ <? _) = true |- _ => apply Z.ltb_lt in H
+         end.
+Ltac args_shape args S :=
+  destruct args as [|?a0 [|?a1 [|?a2 [|?a3 ?args']]]]; cbn [spec_msgs] in S; try discriminate S.
+
+Definition row_goal (r : sysfunc) : Prop := forall p time ch args txt ms,
+  In r sysfuncs -> row_prescription r = Some p ->
+  spec_msgs p ch DEFAULT_DEVICE args txt = Some ms -> 0 <= time -> 0 <= ch <= 15 -> Forall scalar txt ->
+  exists evs, run_row r (mkC time ch DEFAULT_DEVICE) args txt = Ok evs /\ meets evs time ms.
+Ltac rg_start T :=
+  intros p time ch args txt ms Hin R S Ht Hc Hs; unfold row_prescription in R; unfold run_row;
+  rewrite T in R |- *; cbn [c_time c_ch c_dev]; unfold DEFAULT_DEVICE in *.
+Lemma rg_Voice r : sf_type r = TkVoice -> row_goal r.
+Proof.
+  intros T. rg_start T.
+  inversion R; try subst p; clear R. args_shape args S.
+    + split_conds S. bools. inversion S; try subst ms; clear S. eexists. split; [reflexivity|].
+      split; [reflexivity|]. rewrite voice1_wire by lia. reflexivity.
+    + split_conds S. bools. inversion S; try subst ms; clear S.  eexists. split; [reflexivity|].
+      split; [reflexivity|]. rewrite voice3_wire by lia. reflexivity.
+Qed.
+Lemma rg_ControlChange r : sf_type r = TkControlChange -> row_goal r.
+Proof.
+  intros T. rg_start T.
+  inversion R; try subst p; clear R. args_shape args S. split_conds S. bools. inversion S; try subst ms; clear S.
+     eexists. split; [reflexivity|]. split; [reflexivity|]. rewrite cc_wire by lia. reflexivity.
+Qed.
+Lemma rg_Tempo r : sf_type r = TkTempo -> row_goal r.
+Proof.
+  intros T. rg_start T.
+  inversion R; try subst p; clear R. args_shape args S. split_conds S. bools. inversion S; try subst ms; clear S.
+    eexists. split; [reflexivity|]. rewrite tempo_eq by lia.
+    destruct (tempo_payload_value a0 ltac:(lia)) as [a [b [c [E0 [Ha [Hb [Hc' Hv]]]]]]]. rewrite E0.
+    change 3 with (zlen [a; b; c]). apply meta_meets; unfold META_TEMPO, zlen; cbn [length]; try lia.
+    unfold byte_ok. cbn [forallb]. repeat (apply andb_true_intro; split); try reflexivity; lia.
+Qed.
+Lemma rg_MetaText r : sf_type r = TkMetaText -> row_goal r.
+Proof.
+  intros T. rg_start T.
+  inversion R; try subst p; clear R. pose proof (tags_meta r Hin T) as Hty.
+    destruct args; cbn [spec_msgs] in S; [|discriminate S]. inversion S; try subst ms; clear S.
+    eexists. split; [reflexivity|]. rewrite meta_text_eq.
+    destruct (fit_below_spec txt 128 ltac:(lia)) as [rest [E1 [E2 E3]]].
+    apply meta_meets; try lia. apply utf8_ok. rewrite E1 in Hs. apply Forall_app in Hs. tauto.
+Qed.
+Lemma rg_Port r : sf_type r = TkPort -> row_goal r.
+Proof.
+  intros T. rg_start T.
+  inversion R; try subst p; clear R. args_shape args S. split_conds S. bools. inversion S; try subst ms; clear S.
+    eexists. split; [reflexivity|]. unfold cmd_port. rewrite as_u8_small by lia.
+    change 1 with (zlen [a0]) at 1. apply meta_meets; unfold META_PORT, zlen; cbn [length]; try lia.
+    unfold byte_ok. cbn [forallb]. repeat (apply andb_true_intro; split); try reflexivity; lia.
+Qed.
+Lemma rg_TimeSignature r : sf_type r = TkTimeSignature -> row_goal r.
+Proof.
+  intros T. rg_start T.
+  inversion R; try subst p; clear R. args_shape args S. split_conds S. bools.
+    match goal with H : timesig_payload _ _ = Some ?pl |- _ =>
+      unfold timesig_payload in H; destruct (log2_denominator a1) as [lg|] eqn:L; [|discriminate H]; inversion H; try subst pl; clear H end.
+    inversion S; try subst ms; clear S. eexists. split; [reflexivity|]. rewrite (timesig_eq time a0 a1 lg) by (try assumption; lia).
+    apply log2_cases in L. change 4 with (zlen [a0; lg; 24; 8]) at 1.
+    apply meta_meets; unfold META_TIME_SIGNATURE, zlen; cbn [length]; try lia.
+    unfold byte_ok. cbn [forallb]. repeat (apply andb_true_intro; split); try reflexivity; lia.
+Qed.
+Lemma rg_PitchBend r : sf_type r = TkPitchBend -> row_goal r.
+Proof.
+  intros T. rg_start T.
+  inversion R; try subst p; clear R. args_shape args S. split_conds S. bools. inversion S; try subst ms; clear S.
+    unfold BEND_CENTRE in *. eexists. split; [reflexivity|]. split; [reflexivity|].
+    unfold cmd_pitch_bend. rewrite bend_wire by lia. reflexivity.
+Qed.
+Lemma rg_GSEffect r : sf_type r = TkGSEffect -> row_goal r.
+Proof.
+  intros T. rg_start T.
+  destruct (sf_tag1 r =? 0) eqn:G0.
+    { inversion R; try subst p; clear R. args_shape args S. split_conds S. bools. inversion S; try subst ms; clear S. 
+      unfold cmd_gs_effect. rewrite G0. cbn [nth]. rewrite !as_u8_small by lia.
+      eexists. split; [reflexivity|]. apply gs4_meets; lia. }
+    destruct (sf_tag1 r =? 17) eqn:G17.
+    { inversion R; try subst p; clear R. cbn [spec_msgs] in S. split_conds S.
+      apply andb_prop in E. destruct E as [E1 E2]. apply Nat.eqb_eq in E1. inversion S; try subst ms; clear S.
+      unfold cmd_gs_effect. rewrite G0, G17. replace (12 <=? length args)%nat with true by (rewrite E1; reflexivity).
+      eexists. split; [reflexivity|]. apply scale_meets; try lia; assumption. }
+    destruct (sf_tag1 r =? 21) eqn:G21.
+    { inversion R; try subst p; clear R. args_shape args S. split_conds S. bools. inversion S; try subst ms; clear S.
+      unfold cmd_gs_effect. rewrite G0, G17, G21. cbn [nth]. cbv zeta.
+      assert (B : as_u8 (if ch =? 9 then 0 else if ch <=? 9 then ch + 1 else ch) = gs_block ch).
+      { unfold gs_block. destruct (ch =? 9) eqn:A; [reflexivity|]. replace (ch <? 9) with (ch <=? 9) by lia.
+        destruct (ch <=? 9) eqn:A2; apply as_u8_small; lia. }
+      rewrite B. rewrite as_u8_small by lia. rewrite (Z.add_comm 16).
+      assert (0 <= gs_block ch <= 15). { unfold gs_block. destruct (ch =? 9) eqn:A3; [lia|]. destruct (ch <? 9) eqn:A4; lia. }
+      eexists. split; [reflexivity|]. apply gs4_meets; lia. }
+    destruct ((48 <=? sf_tag1 r) && (sf_tag1 r <=? 64)) eqn:G; [|discriminate R].
+    unfold cmd_gs_effect. rewrite G0, G17, G21, G.
+    inversion R; try subst p; clear R. args_shape args S. split_conds S. bools. inversion S; try subst ms; clear S.
+    rewrite Z.rem_small by lia. rewrite !as_u8_small by lia.
+    eexists. split; [reflexivity|]. apply gs4_meets; lia.
+Qed.
+Lemma rg_ControlChangeCommand r : sf_type r = TkControlChangeCommand -> row_goal r.
+Proof.
+  intros T. rg_start T.
+  inversion R; try subst p; clear R. pose proof (tags_data r Hin (or_introl T)) as [Hg _].
+    args_shape args S. split_conds S. bools. inversion S; try subst ms; clear S. 
+    eexists. split; [reflexivity|]. split; [reflexivity|]. rewrite cc_wire by lia. reflexivity.
+Qed.
+Lemma rg_RPN r : sf_type r = TkRPN -> row_goal r.
+Proof.
+  intros T. rg_start T.
+  inversion R; try subst p; clear R. args_shape args S. split_conds S. bools. inversion S; try subst ms; clear S. 
+    eexists. split; [reflexivity|]. split; [reflexivity|]. unfold cmd_rpn_direct, cmd_rpn. rewrite select_data_wire by lia. reflexivity.
+Qed.
+Lemma rg_RPNCommand r : sf_type r = TkRPNCommand -> row_goal r.
+Proof.
+  intros T. rg_start T.
+  inversion R; try subst p; clear R. pose proof (tags_data r Hin (or_intror (or_introl T))) as [Hg1 Hg2].
+    args_shape args S. split_conds S. bools. inversion S; try subst ms; clear S. 
+    eexists. split; [reflexivity|]. split; [reflexivity|]. unfold cmd_rpn. rewrite select_data_wire by lia. reflexivity.
+Qed.
+Lemma rg_NRPN r : sf_type r = TkNRPN -> row_goal r.
+Proof.
+  intros T. rg_start T.
+  inversion R; try subst p; clear R. args_shape args S. split_conds S. bools. inversion S; try subst ms; clear S. 
+    eexists. split; [reflexivity|]. split; [reflexivity|]. unfold cmd_nrpn_direct, cmd_nrpn. rewrite select_data_wire by lia. reflexivity.
+Qed.
+Lemma rg_NRPNCommand r : sf_type r = TkNRPNCommand -> row_goal r.
+Proof.
+  intros T. rg_start T.
+  inversion R; try subst p; clear R. pose proof (tags_data r Hin (or_intror (or_intror T))) as [Hg1 Hg2].
+    args_shape args S. split_conds S. bools. inversion S; try subst ms; clear S. 
+    eexists. split; [reflexivity|]. split; [reflexivity|]. unfold cmd_nrpn. rewrite select_data_wire by lia. reflexivity.
+Qed.
+Lemma rg_SysexReset r : sf_type r = TkSysexReset -> row_goal r.
+Proof.
+  intros T. rg_start T.
+  destruct (sf_tag1 r =? 0) eqn:G0; [|destruct (sf_tag1 r =? 1) eqn:G1; [|destruct (sf_tag1 r =? 2) eqn:G2; [|discriminate R]]];
+      inversion R; try subst p; clear R; cbn [spec_msgs] in S; inversion S; try subst ms; clear S;
+      (eexists; split; [reflexivity|]); unfold cmd_sysex_reset; rewrite ?G0, ?G1, ?G2; apply sysex_meets; try lia; reflexivity.
+Qed.
+Lemma rg_SysExCommand r : sf_type r = TkSysExCommand -> row_goal r.
+Proof.
+  intros T. rg_start T.
+  destruct (sf_tag1 r =? 1) eqn:G1; [|destruct (sf_tag1 r =? 2) eqn:G2; [|discriminate R]];
+      inversion R; try subst p; clear R; args_shape args S; split_conds S; bools; inversion S; try subst ms; clear S.
+    + apply Z.eqb_eq in G1. rewrite G1.  rewrite master_volume_eq by lia. eexists. split; [reflexivity|].
+      apply sysex_meets; [lia| |reflexivity]. unfold MASTER_VOLUME, byte_ok. cbn [forallb].
+      repeat (apply andb_true_intro; split); try reflexivity; lia.
+    + apply Z.eqb_eq in G2. rewrite G2. rewrite master_balance_eq by lia. eexists. split; [reflexivity|].
+      apply sysex_meets; [lia| |reflexivity]. unfold MASTER_BALANCE, BEND_CENTRE, byte_ok. cbn [forallb].
+      repeat (apply andb_true_intro; split); try reflexivity; lia.
+Qed.
+
+Theorem row_meets r p st args txt ms :
+  In r sysfuncs -> row_prescription r = Some p ->
+  spec_msgs p (c_ch st) (c_dev st) args txt = Some ms ->
+  0 <= c_time st -> 0 <= c_ch st <= 15 -> c_dev st = DEFAULT_DEVICE -> Forall scalar txt ->
+  exists evs, run_row r st args txt = Ok evs /\ meets evs (c_time st) ms.
+Proof.
+  intros Hin R S Ht Hc Hd Hs. destruct st as [time ch dev]. cbn [c_time c_ch c_dev] in *. subst dev.
+  assert (G : row_goal r); [|exact (G p time ch args txt ms Hin R S Ht Hc Hs)].
+  clear - R. unfold row_prescription in R.
+  destruct (sf_type r) eqn:T; try discriminate R; clear R.
+  all: first [ exact (rg_Voice r T) | exact (rg_ControlChange r T) | exact (rg_Tempo r T) | exact (rg_MetaText r T)
+             | exact (rg_Port r T) | exact (rg_TimeSignature r T) | exact (rg_PitchBend r T) | exact (rg_GSEffect r T)
+             | exact (rg_ControlChangeCommand r T) | exact (rg_RPN r T) | exact (rg_RPNCommand r T) | exact (rg_NRPN r T)
+             | exact (rg_NRPNCommand r T) | exact (rg_SysexReset r T) | exact (rg_SysExCommand r T) ].
+Qed.
+
+Lemma run_any_row n st args txt : is_char_name n = false -> run_any n st args txt = run_command n st args txt.
+Proof.
+  unfold is_char_name, run_any. destruct n as [|c [|d n]]; try reflexivity. intros H. rewrite H. reflexivity.
+Qed.
+Lemma char_names n : is_char_name n = true -> n = [112] \/ n = [121] \/ n = [64].
+Proof.
+  unfold is_char_name. destruct n as [|c [|d n]]; try discriminate. intros H.
+  destruct (c =? 112) eqn:A; [left; f_equal; lia|]. destruct (c =? 121) eqn:B; [right; left; f_equal; lia|].
+  destruct (c =? 64) eqn:C; [right; right; f_equal; lia|]. discriminate.
+Qed.
+Lemma char_prescriptions :
+  prescription_of [112] = Some PBendSmall /\ prescription_of [121] = Some PControlChange /\ prescription_of [64] = Some PProgram.
+Proof. vm_compute. auto. Qed.
+
+Lemma char_meets n p st args txt ms : is_char_name n = true ->
+  prescription_of n = Some p -> spec_msgs p (c_ch st) (c_dev st) args txt = Some ms ->
+  0 <= c_time st -> 0 <= c_ch st <= 15 ->
+  exists evs, run_any n st args txt = Ok evs /\ meets evs (c_time st) ms.
+Proof.
+  intros C P S Ht Hc. destruct st as [time ch dev]. cbn [c_time c_ch c_dev] in *.
+  destruct char_prescriptions as [P1 [P2 P3]].
+  destruct (char_names n C) as [-> | [-> | ->]].
+  - rewrite P1 in P. inversion P; subst p; clear P. args_shape args S. split_conds S. bools. inversion S; subst ms; clear S.
+    eexists. split; [reflexivity|]. split; [reflexivity|]. unfold cmd_pitch_bend. cbn [c_time c_ch]. rewrite bend_wire by lia.
+    reflexivity.
+  - rewrite P2 in P. inversion P; subst p; clear P. args_shape args S. split_conds S. bools. inversion S; subst ms; clear S.
+    eexists. split; [reflexivity|]. split; [reflexivity|]. cbn [c_time c_ch]. rewrite cc_wire by lia. reflexivity.
+  - rewrite P3 in P. inversion P; subst p; clear P. args_shape args S.
+    + split_conds S. bools. inversion S; subst ms; clear S. eexists. split; [reflexivity|].
+      split; [reflexivity|]. cbn [c_time c_ch]. rewrite voice1_wire by lia. reflexivity.
+    + split_conds S. bools. inversion S; subst ms; clear S. eexists. split; [reflexivity|].
+      split; [reflexivity|]. cbn [c_time c_ch]. rewrite voice3_wire by lia. reflexivity.
+Qed.
+
+(* for every spelling the documentation / the standards give a prescription for and every argument
+   tuple in the documented domain, the model's events denote exactly the prescribed messages *)
+Theorem model_meets_prescription n p st args txt ms :
+  prescription_of n = Some p ->
+  spec_msgs p (c_ch st) (c_dev st) args txt = Some ms ->
+  0 <= c_time st < 2 ^ 28 -> 0 <= c_ch st <= 15 -> c_dev st = DEFAULT_DEVICE -> Forall scalar txt ->
+  exists evs, run_any n st args txt = Ok evs /\
+    generate_track evs = Ok (enc_track (spec_items (c_time st) ms) ++ EOT) /\
+    decode_track (enc_track (spec_items (c_time st) ms) ++ EOT) = Some (spec_items (c_time st) ms ++ [EOTmsg]).
+Proof.
+  intros P S Ht Hc Hd Hs.
+  assert (M : exists evs, run_any n st args txt = Ok evs /\ meets evs (c_time st) ms).
+  { destruct (is_char_name n) eqn:C.
+    - apply (char_meets n p st args txt ms C P S); lia.
+    - destruct (prescribed_row n p P C) as [r [Hin [Hn R]]].
+      rewrite run_any_row by assumption. subst n. rewrite run_row_of by assumption.
+      apply (row_meets r p st args txt ms Hin R S); try assumption; lia. }
+  destruct M as [evs [E [Hok W]]]. exists evs. split; [exact E|].
+  apply track_of_wire; try assumption.
+  unfold spec_items. destruct ms as [|m ms']; [reflexivity|]. apply deltas_one. exact Ht.
+Qed.
